@@ -285,3 +285,93 @@ def check_reads(ctx, M: Messages, kind: str, rule: str, readers: list) -> int:
             ctx.ob(rule, fi.short(), f"read:{pstr}", ok,
                    f"read of `{pstr}` from a decoded {kind}" + ("" if ok else f": {why}"), f"{fi.module.rel}:{node.lineno}")
     return n
+
+
+# ---------------------------------------------------------------------------------------------------------------------
+# dictionaries that reach a message through a request object (confirmed flows; each hop is re-verified on every run)
+# ---------------------------------------------------------------------------------------------------------------------
+APP = "applications.road_hazard_signalling_service"
+ALIASES = [
+    # the EVA application keeps the DENM event position as a dict attribute and hands it on through DENRequest
+    dict(kind="DENM", path=["denm", "management", "eventPosition"], owner=f"{APP}.emergency_vehicle_approaching_service.EmergencyVehicleApproachingService",
+         attr="event_position",
+         hops=[(f"{APP}.service_access_point.DENRequest.with_emergency_vehicle_approaching", "event_position=service.event_position"),
+               (f"{FAC}.decentralized_environmental_notification_service.denm_transmission_management.DecentralizedEnvironmentalNotificationMessage.fullfill_with_denrequest",
+                "self.denm['denm']['management']['eventPosition']=request.event_position")]),
+]
+RETURN_ALIASES = [
+    # collision-risk warnings take the event position from ReferencePosition.to_dict()
+    dict(kind="DENM", path=["denm", "management", "eventPosition"], func=f"{FAC}.local_dynamic_map.ldm_classes.ReferencePosition.to_dict",
+         hops=[(f"{APP}.service_access_point.DENRequest.with_collision_risk_warning", "event_position=event_position.to_dict()"),
+               (f"{FAC}.decentralized_environmental_notification_service.denm_transmission_management.DecentralizedEnvironmentalNotificationMessage.fullfill_with_collision_risk_warning",
+                "self.denm['denm']['management']['eventPosition']=request.event_position")]),
+]
+
+
+def _verify_hops(ctx, hops):
+    for fq, text in hops:
+        fi = ctx.prog.func(fq)
+        if text not in norm(unparse(fi.node)):
+            raise AnalysisError(f"message flow changed: `{text}` no longer found in {fi.short()} (alias table in msgutil needs re-confirmation)")
+
+
+def check_aliases(ctx, M: Messages, kind: str, rule_schema: str, rule_range: str) -> int:
+    """Dict attributes / return values that become part of a message by reference: literal and later subscript stores."""
+    M.load(kind)
+    P = ctx.prog
+    ck = M.checker(kind, rule_schema, rule_range)
+    n = 0
+    for al in ALIASES:
+        if al["kind"] != kind:
+            continue
+        _verify_hops(ctx, al["hops"])
+        ci = P.cls(al["owner"])
+        t, _ = ck.descend(M.roots[kind], al["path"], None)
+        if t is None:
+            raise AnalysisError(f"alias path {al['path']} does not exist in {kind}")
+        pbase = kind + "".join(f".{k}" for k in al["path"])
+        for fi in ci.methods.values():
+            fl = ctx.flows.get(fi)
+            for s in ast.walk(fi.node):
+                if not isinstance(s, ast.Assign) or len(s.targets) != 1 or id(s) not in fl.before:
+                    continue
+                tgt = s.targets[0]
+                st = fl.before[id(s)]
+                if dotted(tgt) == f"self.{al['attr']}":
+                    n += 1
+                    ck.check(s.value, t, fi, fl, st, pbase, {}, True)
+                    continue
+                # self.<attr>[k1][k2] = v
+                path, cur = [], tgt
+                while isinstance(cur, ast.Subscript):
+                    k = P.try_fold(fi.module, cur.slice, default="<nc>")
+                    path.append(k if k != "<nc>" else "?")
+                    cur = cur.value
+                path.reverse()
+                if not path or dotted(cur) != f"self.{al['attr']}":
+                    continue
+                n += 1
+                loc = f"{fi.module.rel}:{s.lineno}"
+                pstr = pbase + "".join(f".{k}" for k in path)
+                if "?" in path:
+                    ctx.note(f"{loc}: store with a non-constant key into {pstr} not analysed")
+                    continue
+                mt, why = ck.descend(t, path, None)
+                if mt is None:
+                    ctx.ob(rule_schema, fi.short(), f"{pstr}:path", False, f"store into `{pstr}`: {why}", loc)
+                    continue
+                ctx.ob(rule_schema, fi.short(), f"{pstr}:path", True, f"`{pstr}` is a {mt.get('_name', mt.get('type'))}", loc)
+                ck.check(fl.expand(s.value, st), mt, fi, fl, st, pstr, {}, True)
+    for al in RETURN_ALIASES:
+        if al["kind"] != kind:
+            continue
+        _verify_hops(ctx, al["hops"])
+        fi = P.func(al["func"])
+        fl = ctx.flows.get(fi)
+        t, _ = ck.descend(M.roots[kind], al["path"], None)
+        pbase = kind + "".join(f".{k}" for k in al["path"])
+        for k_, s_, st_ in fl.exits:
+            if k_ == "return" and s_.value is not None:
+                n += 1
+                ck.check(s_.value, t, fi, fl, st_, pbase, {}, True)
+    return n
